@@ -444,7 +444,11 @@ def try_candidate(p: Pert, value: Any) -> Tuple[str, Dict[str, Any]]:
     return "attr-altered", info
 
 
-def judge_perturbation(p: Pert, col: common.Collector) -> None:
+def judge_perturbation(p: Pert, col: common.Collector,
+                       skip: Sequence[str] = ()) -> Tuple[set, set]:
+    """Judge one site.  Value domains are grouped: 'primary' (typed candidates: bool, int, float,
+    enum, numeric-as-string, XHTML, bytes), 'plain' and 'meta' (free text).  Returns (groups the
+    field's domain has at this site, groups that were judged or are blocked by a finding)."""
     name, path, cls, field, kind = p
     db = H.load_bytes(source_bytes(name))
     obj = H.get_path(db, path)
@@ -452,28 +456,17 @@ def judge_perturbation(p: Pert, col: common.Collector) -> None:
     cands = H.candidates(cls, field, kind, cur, H.enum_type(type(obj), field))
     base = {"mode": "perturb", "source": name, "path": list(path), "cls": cls, "field": field,
             "kind": kind, "path_str": H.path_str(path + (field,))}
+    text = [c for c in cands if c[0] in ("plain", "meta")]
+    pre = [c for c in cands if c[0] not in ("plain", "meta")]
+    want = set()
+    if pre:
+        want.add("primary")
+    if text:
+        want |= {"plain", "meta"}
+    done: set = set()
 
-    def report(verdict: str, label: str, info: Dict[str, Any]) -> None:
-        col.violation((verdict, cls, field), dict(base, value_domain=label, **info))
-
-    def run_until_valid(items: Sequence[Tuple[str, Any]]) -> Tuple[str, str, Dict[str, Any]]:
-        """first candidate that is valid and does not merely break the reload"""
-        last: Tuple[str, str, Dict[str, Any]] = ("invalid", "", {})
-        for label, value in items[:6]:
-            v, info = try_candidate(p, value)
-            if v == "invalid":
-                col.count("candidates_rejected_as_invalid")
-                last = (v, label, info)
-                continue
-            return v, label, info
-        return last
-
-    def conclude(v: str, label: str, info: Dict[str, Any]) -> bool:
-        """returns True if the value was preserved"""
-        if v == "invalid":
-            col.count("perturbations_infeasible")
-            col.notes.setdefault("infeasible", []).append(f"{cls}.{field}")
-            return False
+    def judged(v: str, label: str, info: Dict[str, Any]) -> bool:
+        """account for one valid judged candidate; True if the value was preserved"""
         col.ev()
         col.nontrivial((cls, field, label))
         col.count("perturbed:" + label)
@@ -482,56 +475,76 @@ def judge_perturbation(p: Pert, col: common.Collector) -> None:
             return True
         if v == "xml-syntax":
             v = "attr-misescaped" if label == "meta" else "reload-raises"
-        report(v, label, info)
+        elif label == "meta" and v != "write-raises":
+            info = dict(info, observed_as=v)
+            v = "attr-misescaped"
+        col.violation((v, cls, field), dict(base, value_domain=label, **info))
         return False
 
-    labels = [c[0] for c in cands]
-    if kind == "bool" and cur is None:
-        for label, value in cands:  # explicit false AND true are both judged
-            v, info = try_candidate(p, value)
-            conclude(v, label, info)
-        return
-    if "meta" in labels:
-        # numeric-as-string first if the domain says so, then free text: plain, then metachars
-        pre = [c for c in cands if c[0] not in ("plain", "meta")]
-        if pre:
-            v, label, info = run_until_valid(pre)
-            if v != "invalid":
-                conclude(v, label, info)
-                if v != "preserved":
-                    return
-        v, info = try_candidate(p, H.PLAIN)
-        if v == "invalid":
-            if not pre:
-                conclude(v, "plain", info)
-            return
-        if not conclude(v, "plain", info):
-            return
-        v, info = try_candidate(p, H.META)
-        if v == "invalid":
-            col.count("meta_rejected_as_invalid")
-            return
-        col.ev()
-        col.nontrivial((cls, field, "meta"))
-        col.count("perturbed:meta")
-        if v == "preserved":
-            col.count("preserved")
-        elif v == "write-raises":
-            report(v, "meta", info)
+    if pre and "primary" not in skip:
+        if kind == "bool" and cur is None and len(pre) > 1:
+            for label, value in pre:  # explicit false AND true are both judged
+                v, info = try_candidate(p, value)
+                if v != "invalid":
+                    done.add("primary")
+                    judged(v, label, info)
         else:
-            report("attr-misescaped", "meta", dict(info, observed_as=v))
-        return
-    v, label, info = run_until_valid(cands)
-    conclude(v, label, info)
+            for label, value in pre[:6]:
+                v, info = try_candidate(p, value)
+                if v == "invalid":
+                    col.count("candidates_rejected_as_invalid")
+                    continue
+                done.add("primary")
+                if not judged(v, label, info):
+                    return want, want  # a finding: free text on the same field adds nothing
+                break
+    if text:
+        if "plain" not in skip:
+            v, info = try_candidate(p, H.PLAIN)
+            if v == "invalid":
+                col.count("candidates_rejected_as_invalid")
+                return want, done
+            done.add("plain")
+            if not judged(v, "plain", info):
+                return want, done | {"meta"}  # lost anyway: escaping cannot be judged
+        if "meta" not in skip:
+            v, info = try_candidate(p, H.META)
+            if v == "invalid":
+                col.count("candidates_rejected_as_invalid")
+                return want, done
+            done.add("meta")
+            judged(v, "meta", info)
+    return want, done
 
 
-def task_perturb(ps: List[Pert], col: common.Collector) -> None:
+PertSite = Tuple[Pert, List[Pert]]  # primary site, alternative sites of the same (class, field)
+
+
+def judge_pair(site: PertSite, col: common.Collector) -> None:
+    """The validity of a candidate can depend on the instance (a COMPU-CONST V of a numeric DOP
+    cannot take free text, one of a string DOP can): domains that are infeasible on the primary
+    site are retried on up to five alternative instances."""
+    p, alts = site
+    want, done = judge_perturbation(p, col)
+    for a in alts[:5]:
+        if want and want <= done:
+            break
+        w2, d2 = judge_perturbation(a, col, skip=sorted(done))
+        want |= w2
+        done |= d2
+    for g in sorted(want - done):
+        col.count("perturbations_infeasible")
+        col.notes.setdefault("infeasible", []).append(f"{p[2]}.{p[3]} ({g})")
+
+
+def task_perturb(ps: List[PertSite], col: common.Collector) -> None:
     _prep()
-    for p in ps:
+    for site in ps:
         try:
-            judge_perturbation(p, col)
+            judge_pair(site, col)
         except Exception as e:  # harness trouble with one perturbation must not hide the others
-            col.fail_inconclusive(f"perturbation {p[2]}.{p[3]} on {p[0]} crashed: {_exc(e)}")
+            col.fail_inconclusive(f"perturbation {site[0][2]}.{site[0][3]} on {site[0][0]} "
+                                  f"crashed: {_exc(e)}")
 
 
 # ---------------------------------------------------------------------------
@@ -564,7 +577,7 @@ def inventory_classes() -> Dict[str, type]:
     return inv
 
 
-def plan(tier: str, usable: Sequence[str], col: common.Collector) -> List[Pert]:
+def plan(tier: str, usable: Sequence[str], col: common.Collector) -> List[PertSite]:
     _prep()
     r = random.Random(common.seed() * 7919 + 11)
     # instances per (class, field): [(source, path, kind, non_default)]
@@ -637,9 +650,9 @@ def plan(tier: str, usable: Sequence[str], col: common.Collector) -> List[Pert]:
     col.notes["scalar_pairs_without_perturbable_instance"] = [
         f"{n}.{f}" for n, f in all_scalar if (n, f) not in inst]
     # choose instances
-    per_pair = 1 if tier == "quick" else 2
+    per_pair = 1 if tier == "quick" else 6
     budget = 1100 if tier == "quick" else 10 ** 9
-    chosen: List[Pert] = []
+    chosen: List[PertSite] = []
     pairs = sorted(inst)
     if len(pairs) * per_pair > budget:
         # always at least one perturbation per element class, then fill up at random
@@ -666,9 +679,13 @@ def plan(tier: str, usable: Sequence[str], col: common.Collector) -> List[Pert]:
             c = r.choice(main)
             if c not in picks:
                 picks.append(c)
-        for name, path, kind, _ in picks[:per_pair]:
-            chosen.append((name, path, pr[0], pr[1], kind))
-    col.notes["coverage"]["pairs_perturbed_this_run"] = len({(p[2], p[3]) for p in chosen})
+        others = [c for c in cands if c not in picks]
+        r.shuffle(others)
+        # alternatives: instances with a different current value first (other value domains)
+        alts = [(n2, p2, pr[0], pr[1], k2) for n2, p2, k2, _ in others[:12]]
+        for k, (name, path, kind, _) in enumerate(picks[:per_pair]):
+            chosen.append(((name, path, pr[0], pr[1], kind), alts if k == 0 else []))
+    col.notes["coverage"]["pairs_perturbed_this_run"] = len({(p[0][2], p[0][3]) for p in chosen})
     col.notes["coverage"]["perturbation_sites_this_run"] = len(chosen)
     return chosen
 
@@ -729,4 +746,4 @@ def replay(w: Dict[str, Any], col: common.Collector) -> None:
         task_entry((w["source"], 4), col)
     elif mode == "perturb":
         path = tuple(w["path"])
-        judge_perturbation((w["source"], path, w["cls"], w["field"], w["kind"]), col)
+        judge_pair(((w["source"], path, w["cls"], w["field"], w["kind"]), []), col)
